@@ -4,8 +4,12 @@ import re
 from base64 import a85decode
 from binascii import unhexlify
 
-start_re = re.compile(rb"^\s*<?\s*~\s*")
-end_re = re.compile(rb"\s*~\s*>?\s*$")
+# White-space characters of PDF (ISO 32000-1 table 1: NUL, HT, LF, FF, CR, SP),
+# plus VT which Python's \s and a85decode have always accepted.
+PDF_WHITESPACE = b"\x00\t\n\x0b\x0c\r "
+
+start_re = re.compile(rb"^[\s\x00]*<?[\s\x00]*~[\s\x00]*")
+end_re = re.compile(rb"[\s\x00]*~[\s\x00]*>?[\s\x00]*$")
 
 
 def ascii85decode(data: bytes) -> bytes:
@@ -24,10 +28,10 @@ def ascii85decode(data: bytes) -> bytes:
     """
     data = start_re.sub(b"", data)
     data = end_re.sub(b"", data)
-    return a85decode(data)
+    return a85decode(data, ignorechars=PDF_WHITESPACE)
 
 
-bws_re = re.compile(rb"\s")
+bws_re = re.compile(rb"[\s\x00]")
 
 
 def asciihexdecode(data: bytes) -> bytes:
